@@ -1,6 +1,7 @@
 package main
 
 import (
+	"regexp"
 	"encoding/json"
 	"flag"
 	"fmt"
@@ -62,6 +63,7 @@ func cmdCheck(args []string) int {
 	prop := fs.String("p", "", "property id")
 	tier := fs.String("tier", "quick", "quick|thorough")
 	verbose := fs.Bool("v", false, "verbose")
+	only := fs.String("only", "", "development aid: restrict the roots to those matching this regular expression (evidence is then partial)")
 	fs.Parse(args)
 	if t := os.Getenv("VERIF_TIER"); t != "" && *tier == "" {
 		*tier = t
@@ -93,6 +95,16 @@ func cmdCheck(args []string) int {
 		needAgree = 2
 	}
 	roots := pd.resolveRoots(p, *tier)
+	if *only != "" {
+		re := regexp.MustCompile(*only)
+		var keep []string
+		for _, r := range roots {
+			if re.MatchString(r) {
+				keep = append(keep, r)
+			}
+		}
+		roots = keep
+	}
 	known := loadKnownFindings()
 
 	type unitOut struct {
@@ -117,7 +129,11 @@ func cmdCheck(args []string) int {
 		go func(res *UnitResult) {
 			defer wg.Done()
 			defer func() { <-sem }()
+			ts := time.Now()
 			solveUnit(res, Options{Timeout: timeout, NeedAgree: needAgree, Workers: 6, Only: func(o *Obligation) bool { return pd.ownsObligation(o) }})
+			if os.Getenv("GOVC_DEBUG") != "" {
+				fmt.Fprintf(os.Stderr, "unit %s: %d obligations solved in %.1fs\n", res.Key, len(res.Obls), time.Since(ts).Seconds())
+			}
 		}(res)
 	}
 	wg.Wait()
@@ -131,6 +147,8 @@ func cmdCheck(args []string) int {
 	var functions, trusted, inlined, byContract, notes, specErrs, rejected []string
 	tset, iset, cset := map[string]bool{}, map[string]bool{}, map[string]bool{}
 	replayDir := filepath.Join(verifRoot(), "replay", pd.ID)
+	replays := 0
+	const maxReplays = 8
 	for _, res := range results {
 		functions = append(functions, res.Key)
 		if res.Rejected != "" {
@@ -188,7 +206,12 @@ func cmdCheck(args []string) int {
 			if handled {
 				continue
 			}
-			line := reportViolation(p, res, o, pd, replayDir, timeout)
+			replays++
+			tr := time.Now()
+			line := reportViolation(p, res, o, pd, replayDir, timeout, replays <= maxReplays)
+			if os.Getenv("GOVC_DEBUG") != "" {
+				fmt.Fprintf(os.Stderr, "report %s: %.1fs\n", o.Name, time.Since(tr).Seconds())
+			}
 			violations = append(violations, line)
 		}
 	}
@@ -357,6 +380,7 @@ func trustedBase(models []string) []string {
 
 func baseAssumptions() []string {
 	return []string{
+		"implicit preconditions: pointer method receivers are non-nil; parameters of a type with a //@ valid declaration satisfy it (checked at contract-mode call sites)",
 		"termination is proved only for loops with a written or inferred variant; other loops are listed in notes",
 		"specification expressions themselves are not checked for definedness (out-of-range selects are unconstrained values)",
 		"service/attachment/terminal are verified against /repo/protocol (the working tree), not the protocol version pinned in their go.mod",
